@@ -74,12 +74,35 @@ var srcTargets = []srcTarget{
 	{Group: "ValidateClaims", Recv: "User", Name: "Validate", Only: "V2"},
 	{Group: "ValidateClaims", Recv: "UserClaims", Name: "Validate", Only: "V2"},
 	{Group: "ValidateClaims", Recv: "ExternalAuthorization", Name: "Validate", Only: "V2"},
+	{Group: "Decode", Recv: "Header", Name: "Valid", Only: "V2"},
+	{Group: "Decode", Recv: "identifier", Name: "Kind", Only: "V2"},
+	{Group: "Decode", Recv: "identifier", Name: "Version", Only: "V2"},
+	{Group: "Decode", Name: "parseHeaders", Only: "V2"},
+	{Group: "Decode", Name: "loadClaims", Only: "V2"},
+	{Group: "Decode", Name: "Decode", Only: "V2"},
+	{Group: "Decode", Name: "DecodeOperatorClaims", Only: "V2"},
+	{Group: "Decode", Name: "DecodeAccountClaims", Only: "V2"},
+	{Group: "Decode", Name: "DecodeUserClaims", Only: "V2"},
+	{Group: "Decode", Name: "DecodeActivationClaims", Only: "V2"},
+	{Group: "Decode", Name: "DecodeAuthorizationRequestClaims", Only: "V2"},
+	{Group: "Decode", Name: "DecodeAuthorizationResponseClaims", Only: "V2"},
+	{Group: "Decode", Recv: "ClaimsData", Name: "verify", Only: "V2"},
 	{Group: "DidSign", Recv: "StringList", Name: "Contains", Only: "V2"},
 	{Group: "DidSign", Recv: "OperatorClaims", Name: "DidSign", Only: "V2"},
 	{Group: "DidSign", Recv: "AccountClaims", Name: "DidSign", Only: "V2"},
 }
 
 type untr struct{ msg string }
+
+// translated functions that take the opaque value type and its nil as their first two parameters
+var usesVal = map[types.Object]bool{}
+
+func valArgs(o types.Object) string {
+	if usesVal[o] {
+		return "go_val go_nil "
+	}
+	return ""
+}
 
 // an observation parameter of a translated function: the path below its receiver and its Coq type
 type absParam struct {
@@ -100,6 +123,7 @@ type tr struct {
 	absParams  map[types.Object][]absParam // per translated function: its observation parameters, relative to its receiver
 	retTy      string
 	resTy      string                  // the Go result alone (retTy adds the mutated receiver)
+	resTys     []string                // the Go results one by one
 	known      map[types.Object]string // translated functions of this package -> Coq name
 	mutates    map[types.Object]bool   // known functions that return the updated receiver first
 	mut        bool                    // this function assigns through its receiver (slice behind a pointer, or map)
@@ -164,12 +188,15 @@ func (t *tr) coqType(n ast.Node, ty types.Type) string {
 			return "Z"
 		}
 	case *types.Slice:
+		if b, ok := u.Elem().(*types.Basic); ok && b.Kind() == types.Uint8 {
+			return "string" // []byte: a byte string
+		}
 		return "(list " + t.coqType(n, u.Elem()) + ")"
 	case *types.Map:
 		return "(list (" + t.coqType(n, u.Key()) + " * " + t.coqType(n, u.Elem()) + "))"
 	case *types.Struct:
 		// a struct of plain fields is the tuple of its fields
-		if u.NumFields() >= 2 {
+		if isPlainStruct(ty) {
 			var fs []string
 			for i := 0; i < u.NumFields(); i++ {
 				fs = append(fs, t.coqType(n, u.Field(i).Type()))
@@ -177,8 +204,35 @@ func (t *tr) coqType(n ast.Node, ty types.Type) string {
 			return "(" + strings.Join(fs, " * ") + ")"
 		}
 	}
+	if isAbstractType(ty) {
+		return "go_val" // a struct, a pointer to one, an interface: an opaque value, known through observations
+	}
 	t.fail(n, "type %s is outside the translated subset", ty)
 	return ""
+}
+
+// isAbstractType: values the translation treats as opaque (type go_val)
+func isAbstractType(ty types.Type) bool {
+	if isVR(ty) {
+		return false
+	}
+	if named, ok := ty.(*types.Named); ok && named.Obj().Pkg() == nil && named.Obj().Name() == "error" {
+		return false
+	}
+	switch u := derefType(ty).Underlying().(type) {
+	case *types.Struct:
+		return !isPlainStruct(ty)
+	case *types.Interface:
+		_ = u
+		return true
+	}
+	return false
+}
+
+func typeShortName(ty types.Type) string {
+	s := types.TypeString(derefType(ty), func(*types.Package) string { return "" })
+	s = strings.TrimPrefix(s, "*")
+	return strings.NewReplacer(".", "_", "{", "", "}", "", " ", "").Replace(s)
 }
 
 func coqString(n ast.Node, t *tr, s string) string {
@@ -199,7 +253,9 @@ func (t *tr) zero(n ast.Node, ty types.Type) string {
 	case "Z":
 		return "0%Z"
 	case "(option string)":
-		return "None"
+		return "(@None string)"
+	case "go_val":
+		return "go_nil"
 	}
 	if strings.HasPrefix(t.coqType(n, ty), "(list ") {
 		return "[]"
@@ -273,7 +329,7 @@ func (t *tr) expr(e ast.Expr) string {
 		}
 		t.fail(e, "dereference of %s", exprText(x.X))
 	case *ast.CompositeLit:
-		if st, ok := t.info.TypeOf(x).Underlying().(*types.Struct); ok && st.NumFields() >= 2 {
+		if st, ok := t.info.TypeOf(x).Underlying().(*types.Struct); ok && isPlainStruct(t.info.TypeOf(x)) {
 			t.coqType(x, t.info.TypeOf(x))
 			vals := make([]string, st.NumFields())
 			for i, el := range x.Elts {
@@ -294,6 +350,9 @@ func (t *tr) expr(e ast.Expr) string {
 			}
 			return "(" + strings.Join(vals, ", ") + ")"
 		}
+		if isAbstractType(t.info.TypeOf(x)) && len(x.Elts) == 0 {
+			return "go_nil" // the zero value of an opaque struct
+		}
 		t.fail(e, "composite literal of %s", t.info.TypeOf(x))
 	case *ast.UnaryExpr:
 		switch x.Op {
@@ -301,6 +360,10 @@ func (t *tr) expr(e ast.Expr) string {
 			return "(negb " + t.expr(x.X) + ")"
 		case token.SUB:
 			return "(- " + t.expr(x.X) + ")%Z"
+		case token.AND:
+			if id, ok := x.X.(*ast.Ident); ok && t.names[t.info.Uses[id]] != "" && isAbstractType(t.info.Uses[id].Type()) {
+				return t.names[t.info.Uses[id]] // the address of an opaque local is that value
+			}
 		}
 		t.fail(e, "unary operator %s", x.Op)
 	case *ast.BinaryExpr:
@@ -310,6 +373,14 @@ func (t *tr) expr(e ast.Expr) string {
 					if _, isNil := t.info.Uses[id].(*types.Nil); isNil {
 						if name, ok := t.absPath(pair[0]); ok {
 							r := t.observe(name+"_isnil", "bool")
+							if x.Op == token.NEQ {
+								return "(negb " + r + ")"
+							}
+							return r
+						}
+						if lid, ok := pair[0].(*ast.Ident); ok && t.names[t.info.Uses[lid]] != "" && strings.HasPrefix(t.coqType(lid, t.info.TypeOf(lid)), "(list ") {
+							// (a nil slice and an empty slice are the same list here)
+							r := "(go_lnil " + t.names[t.info.Uses[lid]] + ")"
 							if x.Op == token.NEQ {
 								return "(negb " + r + ")"
 							}
@@ -397,6 +468,17 @@ func (t *tr) expr(e ast.Expr) string {
 			}
 			return "(go_slice " + l + " " + lo + " " + hi + ")"
 		}
+		if t.isStr(x.X) && !x.Slice3 {
+			str := t.expr(x.X)
+			lo, hi := "0%Z", "(go_slen "+str+")"
+			if x.Low != nil {
+				lo = t.expr(x.Low)
+			}
+			if x.High != nil {
+				hi = t.expr(x.High)
+			}
+			return "(go_substr " + str + " " + lo + " " + hi + ")"
+		}
 		t.fail(e, "slice of %s", t.info.TypeOf(x.X))
 	case *ast.CallExpr:
 		return t.call(x)
@@ -417,6 +499,14 @@ func (t *tr) absPath(e ast.Expr) (string, bool) {
 	case *ast.Ident:
 		if p, ok := t.roots[t.info.Uses[x]]; ok {
 			return p, true
+		}
+		// a local variable holding an opaque value: its observations are functions applied to it
+		if o := t.info.Uses[x]; o != nil && t.names[o] != "" && isAbstractType(o.Type()) {
+			return "\x00" + t.names[o] + "\x00obs_" + typeShortName(o.Type()), true
+		}
+	case *ast.UnaryExpr:
+		if x.Op == token.AND {
+			return t.absPath(x.X)
 		}
 	case *ast.SelectorExpr:
 		if p, ok := t.absPath(x.X); ok {
@@ -440,6 +530,10 @@ func (t *tr) absPath(e ast.Expr) (string, bool) {
 
 // observe registers an observation parameter
 func (t *tr) observe(name, ty string) string {
+	if strings.HasPrefix(name, "\x00") {
+		parts := strings.SplitN(name[1:], "\x00", 2)
+		return "(" + t.observe(parts[1], "(go_val -> "+ty+")") + " " + parts[0] + ")"
+	}
 	if old, seen := t.fieldTy[name]; !seen {
 		t.fieldOrder = append(t.fieldOrder, name)
 	} else if old != ty {
@@ -517,7 +611,7 @@ func (t *tr) call(x *ast.CallExpr) string {
 		case *types.Builtin:
 			switch o.Name() {
 			case "len":
-				if t.isStr(x.Args[0]) {
+				if t.isStr(x.Args[0]) || t.coqType(x.Args[0], t.info.TypeOf(x.Args[0])) == "string" {
 					return "(go_slen " + t.expr(x.Args[0]) + ")"
 				}
 				if t.isList(x.Args[0]) {
@@ -543,7 +637,23 @@ func (t *tr) call(x *ast.CallExpr) string {
 					}
 					as = append(as, t.observe(ap.rel, ap.ty))
 				}
-				return "(" + n + " " + strings.Join(append(as, args()...), " ") + ")"
+				return "(" + n + " " + valArgs(o) + strings.Join(append(as, args()...), " ") + ")"
+			}
+			// an untranslated function of this package: an unknown function of its arguments
+			if sig, ok := o.Type().(*types.Signature); ok && !sig.Variadic() && sig.Results().Len() >= 1 {
+				var tys, rtys []string
+				for _, a := range x.Args {
+					tys = append(tys, t.coqType(a, t.info.TypeOf(a)))
+				}
+				for i := 0; i < sig.Results().Len(); i++ {
+					rtys = append(rtys, t.coqType(x, sig.Results().At(i).Type()))
+				}
+				rty := rtys[0]
+				if len(rtys) > 1 {
+					rty = "(" + strings.Join(rtys, " * ") + ")"
+				}
+				name := t.observe("go_"+f.Name, "("+strings.Join(append(tys, rty), " -> ")+")")
+				return "(" + name + " " + strings.Join(args(), " ") + ")"
 			}
 		}
 		t.fail(x, "call of %s", f.Name)
@@ -584,12 +694,19 @@ func (t *tr) call(x *ast.CallExpr) string {
 				}
 				// any other function of an imported package, of translatable argument and result types: an unknown
 				// function of its arguments (one more observation of the world)
-				if sig, ok := t.info.TypeOf(f).(*types.Signature); ok && sig.Results().Len() == 1 && !sig.Variadic() {
-					var tys []string
+				if sig, ok := t.info.TypeOf(f).(*types.Signature); ok && sig.Results().Len() >= 1 && !sig.Variadic() {
+					var tys, rtys []string
 					for _, arg := range a {
 						tys = append(tys, t.coqType(arg, t.info.TypeOf(arg)))
 					}
-					ty := "(" + strings.Join(append(tys, t.coqType(x, sig.Results().At(0).Type())), " -> ") + ")"
+					for i := 0; i < sig.Results().Len(); i++ {
+						rtys = append(rtys, t.coqType(x, sig.Results().At(i).Type()))
+					}
+					rty := rtys[0]
+					if len(rtys) > 1 {
+						rty = "(" + strings.Join(rtys, " * ") + ")"
+					}
+					ty := "(" + strings.Join(append(tys, rty), " -> ") + ")"
 					name := t.observe("go_"+pn.Imported().Name()+"_"+f.Sel.Name, ty)
 					return "(" + name + " " + strings.Join(args(), " ") + ")"
 				}
@@ -621,7 +738,7 @@ func (t *tr) call(x *ast.CallExpr) string {
 							as = append(as, t.observe(prefix+ap.rel, ap.ty))
 						}
 					}
-					return "(" + n + " " + strings.Join(append(as, args()...), " ") + ")"
+					return "(" + n + " " + valArgs(sel.Obj()) + strings.Join(append(as, args()...), " ") + ")"
 				}
 				// a value receiver: the receiver itself first, then the callee's observations of the world
 				as := []string{t.expr(f.X)}
@@ -630,7 +747,7 @@ func (t *tr) call(x *ast.CallExpr) string {
 						as = append(as, t.observe(ap.rel, ap.ty))
 					}
 				}
-				return "(" + n + " " + strings.Join(append(as, args()...), " ") + ")"
+				return "(" + n + " " + valArgs(sel.Obj()) + strings.Join(append(as, args()...), " ") + ")"
 			}
 			// an untranslated method of an abstract value, with arguments: an unknown function of the arguments
 			if prefix, isAbs := t.absPath(f.X); isAbs {
@@ -864,21 +981,32 @@ func (t *tr) block0(stmts []ast.Stmt, c sctx, ind string) string {
 		if len(x.Results) == 0 {
 			return c.ret("tt")
 		}
-		if len(x.Results) != 1 {
+		if len(x.Results) != len(t.resTys) {
 			t.fail(x, "return of %d values", len(x.Results))
 		}
-		if id, ok := x.Results[0].(*ast.Ident); ok {
-			if _, isNil := t.info.Uses[id].(*types.Nil); isNil {
-				switch t.retTy {
-				case "(option string)":
-					return c.ret("None")
-				case "(list string)":
-					return c.ret("[]")
+		var vals []string
+		for i, r := range x.Results {
+			if id, ok := r.(*ast.Ident); ok {
+				if _, isNil := t.info.Uses[id].(*types.Nil); isNil {
+					switch {
+					case t.resTys[i] == "(option string)":
+						vals = append(vals, "None")
+					case t.resTys[i] == "go_val":
+						vals = append(vals, "go_nil")
+					case strings.HasPrefix(t.resTys[i], "(list "):
+						vals = append(vals, "[]")
+					default:
+						t.fail(x, "return nil as %s", t.resTys[i])
+					}
+					continue
 				}
-				t.fail(x, "return nil as %s", t.retTy)
 			}
+			vals = append(vals, t.expr(r))
 		}
-		return c.ret(t.expr(x.Results[0]))
+		if len(vals) == 1 {
+			return c.ret(vals[0])
+		}
+		return c.ret("(" + strings.Join(vals, ", ") + ")")
 	case *ast.BranchStmt:
 		if x.Label != nil {
 			t.fail(x, "labelled branch")
@@ -949,15 +1077,21 @@ func (t *tr) block0(stmts []ast.Stmt, c sctx, ind string) string {
 				if prefix, ok := t.absPath(ta.X); ok {
 					tn := strings.TrimPrefix(types.TypeString(t.info.TypeOf(ta.Type), func(*types.Package) string { return "" }), "*")
 					tn = strings.ReplaceAll(tn, ".", "_")
+					bindVal := ""
 					if id, isID := x.Lhs[0].(*ast.Ident); isID && id.Name != "_" {
 						o := t.info.Defs[id]
 						if o == nil {
 							o = t.info.Uses[id]
 						}
 						t.roots[o] = prefix + "_as_" + tn
+						if strings.HasPrefix(prefix, "\x00") {
+							// an opaque local seen as a *T is the same value
+							local := strings.SplitN(prefix[1:], "\x00", 2)[0]
+							bindVal = "let " + t.bind(o) + " := " + local + " in" + nl
+						}
 					}
 					okName := t.lhsName(x.Lhs[1], x.Tok == token.DEFINE)
-					return "let " + okName + " := " + t.observe(prefix+"_is_"+tn, "bool") + " in" + nl + t.block(rest, c, ind)
+					return bindVal + "let " + okName + " := " + t.observe(prefix+"_is_"+tn, "bool") + " in" + nl + t.block(rest, c, ind)
 				}
 			}
 			// v, ok := m[k]
@@ -976,6 +1110,36 @@ func (t *tr) block0(stmts []ast.Stmt, c sctx, ind string) string {
 				m := t.mapExpr(ie.X)
 				t.markMutated(ie.X)
 				return "let " + m + " := (go_mset " + m + " " + t.expr(ie.Index) + " " + t.expr(x.Rhs[0]) + ") in" + nl + t.block(rest, c, ind)
+			}
+		}
+		// err := json.Unmarshal(data, &v): v is what the text decodes to (an unknown function of the text), err whether it failed
+		if len(x.Lhs) == 1 && len(x.Rhs) == 1 && (x.Tok == token.DEFINE || x.Tok == token.ASSIGN) {
+			if call, ok := x.Rhs[0].(*ast.CallExpr); ok && len(call.Args) == 2 {
+				if f, ok := call.Fun.(*ast.SelectorExpr); ok && f.Sel.Name == "Unmarshal" {
+					if id, ok := f.X.(*ast.Ident); ok {
+						if pn, ok := t.info.Uses[id].(*types.PkgName); ok && pn.Imported().Path() == "encoding/json" {
+							if u, ok := call.Args[1].(*ast.UnaryExpr); ok && u.Op == token.AND {
+								if vid, ok := u.X.(*ast.Ident); ok && t.names[t.info.Uses[vid]] != "" && isAbstractType(t.info.Uses[vid].Type()) {
+									fn := t.observe("go_json_Unmarshal_"+typeShortName(t.info.Uses[vid].Type()), "(string -> (go_val * (option string)))")
+									vn := t.names[t.info.Uses[vid]]
+									en := t.lhsName(x.Lhs[0], x.Tok == token.DEFINE)
+									return "let '(" + vn + ", " + en + ") := (" + fn + " " + t.expr(call.Args[0]) + ") in" + nl + t.block(rest, c, ind)
+								}
+							}
+						}
+					}
+				}
+			}
+		}
+		// a, b := f(x): the results of a call, one by one
+		if len(x.Lhs) > 1 && len(x.Rhs) == 1 && (x.Tok == token.DEFINE || x.Tok == token.ASSIGN) {
+			if call, ok := x.Rhs[0].(*ast.CallExpr); ok {
+				val := t.call(call)
+				var ns []string
+				for _, l := range x.Lhs {
+					ns = append(ns, t.lhsName(l, x.Tok == token.DEFINE))
+				}
+				return "let '(" + strings.Join(ns, ", ") + ") := " + val + " in" + nl + t.block(rest, c, ind)
 			}
 		}
 		if len(x.Lhs) != len(x.Rhs) {
@@ -1366,10 +1530,17 @@ func translateFunc(pkg *packages.Package, fd *ast.FuncDecl, coqName string, know
 	}
 	t.resTy = "unit"
 	if fd.Type.Results != nil {
-		if len(fd.Type.Results.List) != 1 || len(fd.Type.Results.List[0].Names) > 0 {
-			t.fail(fd, "result list")
+		for _, r := range fd.Type.Results.List {
+			if len(r.Names) > 0 {
+				t.fail(fd, "named results")
+			}
+			t.resTys = append(t.resTys, t.coqType(fd, t.info.TypeOf(r.Type)))
 		}
-		t.resTy = t.coqType(fd, t.info.TypeOf(fd.Type.Results.List[0].Type))
+		if len(t.resTys) == 1 {
+			t.resTy = t.resTys[0]
+		} else {
+			t.resTy = "(" + strings.Join(t.resTys, " * ") + ")"
+		}
 	}
 	// does the body store through the receiver?  (decided before translating: it fixes the result type)
 	if recvName != "" {
@@ -1409,7 +1580,7 @@ func translateFunc(pkg *packages.Package, fd *ast.FuncDecl, coqName string, know
 	for _, n := range t.fieldOrder {
 		fp = append(fp, "("+n+" : "+t.fieldTy[n]+")")
 		switch {
-		case strings.HasPrefix(n, "go_"):
+		case strings.HasPrefix(n, "go_") || strings.HasPrefix(n, "obs_"):
 			t.myAbs = append(t.myAbs, absParam{n, t.fieldTy[n], true})
 		case t.recv != nil && t.roots[t.recv] != "" && strings.HasPrefix(n, t.roots[t.recv]+"_"):
 			t.myAbs = append(t.myAbs, absParam{strings.TrimPrefix(n, t.roots[t.recv]), t.fieldTy[n], false})
@@ -1433,7 +1604,12 @@ func translateFunc(pkg *packages.Package, fd *ast.FuncDecl, coqName string, know
 	case t.myAbs == nil:
 		t.myAbs = []absParam{}
 	}
-	return fmt.Sprintf("Definition %s %s : %s :=\n  %s.\n", coqName, strings.Join(params, " "), t.retTy, body), t.mut, t.myAbs, t.vr != nil
+	text = fmt.Sprintf("Definition %s %s : %s :=\n  %s.\n", coqName, strings.Join(params, " "), t.retTy, body)
+	if strings.Contains(text, "go_val") || strings.Contains(text, "go_nil") {
+		text = fmt.Sprintf("Definition %s (go_val : Type) (go_nil : go_val) %s : %s :=\n  %s.\n", coqName, strings.Join(params, " "), t.retTy, body)
+		usesVal[pkg.TypesInfo.Defs[fd.Name]] = true
+	}
+	return text, t.mut, t.myAbs, t.vr != nil
 }
 
 // recvIsStruct: is the method's receiver a struct (possibly behind a pointer), i.e. an abstract value in the translation?
@@ -1467,6 +1643,9 @@ func isPlainStruct(ty types.Type) bool {
 	st, ok := ty.Underlying().(*types.Struct)
 	if !ok || st.NumFields() < 2 || st.NumFields() > 3 {
 		return false
+	}
+	if types.NewMethodSet(types.NewPointer(ty)).Len() > 0 {
+		return false // a type with behaviour of its own is an abstract value
 	}
 	for i := 0; i < st.NumFields(); i++ {
 		if _, basic := st.Field(i).Type().Underlying().(*types.Basic); !basic {
